@@ -838,6 +838,21 @@ spec fn blob_instance_ok(ts0: Seq<TypeNode>, vs: Seq<TypeVariable>, e: Expressio
         _ => true,
     }
 }
+/// a variant construction / blob instance that contradicts what is already known about the type of
+/// the enum / blob variable it names: not an enum, an enum without that variant, not a blob, an externblob
+spec fn decl_clash(ts0: Seq<TypeNode>, vs: Seq<TypeVariable>, e: Expression) -> bool {
+    match e {
+        Expression::Variant { ty, variant, .. } => {
+            let t = ty_of(ts0, vs[ty as int].ty);
+            !(t is Unknown) && (!(t is Enum) || !t->Enum_2@.dom().contains(variant))
+        }
+        Expression::Blob { blob, .. } => {
+            let t = ty_of(ts0, vs[blob as int].ty);
+            !(t is Unknown) && !(t is Blob)
+        }
+        _ => false,
+    }
+}
 /// the type constructor of a literal
 spec fn lit_head(e: Expression) -> Option<int> {
     match e {
@@ -1847,6 +1862,7 @@ impl TypeChecker {
             lit_clash(*expression) ==> r is Err, //# C03,C05 expression.construct_on_literals_of_a_type_it_does_not_accept_is_rejected
             r is Ok ==> case_recorded(final(self).types@, *expression, old(self).variables@), //# C05 expression.case_requires_an_enum_with_every_arm_and_exactly_the_arms_without_else
             r is Ok ==> blob_instance_ok(old(self).types@, old(self).variables@, *expression), //# C05 expression.an_accepted_blob_instance_names_exactly_the_fields_of_the_blob
+            decl_clash(old(self).types@, old(self).variables@, *expression) ==> r is Err, //# C05 expression.unknown_variant_and_instance_of_a_non_blob_or_externblob_are_rejected
 //@   endspec
 //@   ghost entry
         hide(wf_forest); hide(ids_closed); hide(TypeChecker::vars_valid);
@@ -1854,7 +1870,7 @@ impl TypeChecker {
         hide(ib_below); hide(ib_nodecl); hide(ib_shape); hide(cb_below); hide(cb_nodecl); hide(cb_shape);
         hide(e_brk); hide(e_pur); hide(s_brk); hide(s_pur); hide(ib_brk); hide(ib_pur); hide(cb_brk); hide(cb_pur); hide(merges_only);
         let ghost n = self.variables@.len() as int; let ghost vs = self.variables@; let ghost il = ctx.inside_loop; let ghost ip = ctx.inside_pure;
-        proof { axiom_string_key_order(); lemma_e_ok_children(*expression, n); }
+        proof { axiom_string_key_order(); lemma_e_ok_children(*expression, n); lemma_heads_refl(self.types@); }
 //@   endghost
 //@   ghost before
 //@| match self.find_type(expr) {
@@ -1986,7 +2002,7 @@ impl TypeChecker {
 //@   endghost
 //@   ghost before
 //@| let enum_ty = self.copy(self.variables[*ty].ty);
-                proof { lemma_var_valid(self, *ty as int); }
+                proof { lemma_var_valid(self, *ty as int); lemma_var_valid(&*old(self), *ty as int); }
 //@   endghost
 //@   ghost before
 //@| let blob_ty = self.copy(self.variables[*blob].ty);
